@@ -330,6 +330,36 @@ theorem setup_started_once_live_counterexample :
   intro h
   exact absurd (h [(13, 1, [0, 10]), (13, 1, [0, 10])]) (by decide)
 
+/-- the protocol generation is chosen from the device's version: after the version reply `00 v` the stored
+version is `v`, and the fetcher uses the current generation iff `v >= 4` (the firmware's threshold) -/
+theorem version_is_devices (p : Platform) (v : UInt8) (rest : Bytes) :
+    ∃ q, p.onPacket 13 1 (0 :: v :: rest) = .ok q ∧ q.version = v.toNat := by
+  unfold Platform.onPacket Platform.onPacketG Platform.cont
+  refine ⟨_, rfl, ?_⟩
+  cases p.pending <;> rfl
+theorem gen_v2_threshold : Gen.C03.v2MinProtocol = 4 ∧
+    Gen.C03.useV2Expr = "self.cf.platform.get_protocol_version() >= 4" := by decide
+
+/-- any number of (duplicated) reset replies after one `refresh_toc` start exactly one log `TocFetcher` -/
+theorem log_fetcher_started_once (s : LogStart) (n : Nat) :
+    ((List.replicate (n + 1) ()).foldl (fun t _ => t.onResetReply) s.refresh).fetchers = s.fetchers + 1 := by
+  have h : ∀ (m : Nat) (t : LogStart), t.tocSet = true →
+      ((List.replicate m ()).foldl (fun t _ => t.onResetReply) t) = t := by
+    intro m
+    induction m with
+    | zero => intro t _; rfl
+    | succ m ih =>
+      intro t ht
+      rw [List.replicate_succ, List.foldl_cons]
+      have : t.onResetReply = t := by simp [LogStart.onResetReply, ht]
+      rw [this]; exact ih t ht
+  rw [List.replicate_succ, List.foldl_cons]
+  have h1 : s.refresh.onResetReply = { tocSet := true, fetchers := s.fetchers + 1 } := by
+    simp [LogStart.onResetReply, LogStart.refresh]
+  rw [h1, h n _ rfl]
+theorem gen_log_reset_guard : Gen.C03.logResetGuard = "not self.toc" ∧
+    Gen.C03.logRefreshTocAssign = ["self.toc = None"] := by decide
+
 /-! ## Non-vacuity: concrete instances -/
 
 /-- a 2-entry V2 log table; the info reply is delivered three times, item 0 twice (once late) -/
